@@ -246,8 +246,11 @@ func (m *model) block(h int64, t time.Time, ops []op, amounts []int64, res []har
 				m.trivial = false
 				switch {
 				case f == nil:
-					m.violate(fmt.Sprintf("C19|release-accepted-for-unfrozen-validator|op=release|world=%s", cls),
-						fmt.Sprintf("height %d: release of %s accepted although it is not frozen", h, actorName(o.actor)))
+					// counted, not judged: the statement says nothing about releasing a validator that is not frozen,
+					// and the model cannot know every freeze - a validator frozen for missed votes by the BeginBlock
+					// of this very block (e.g. a released validator that is not yet back in Tendermint's set and
+					// therefore "misses" every commit) is released here before any snapshot shows the record
+					m.count("release_accepted_without_a_freeze_known_to_the_model")
 				case f.byz && !t.After(releaseLimit(f)):
 					m.violate(fmt.Sprintf("C19|released-before-release-time|op=release|world=%s", cls),
 						fmt.Sprintf("height %d: release of %s accepted at %s, frozen at %s, release time %d day(s)", h, actorName(o.actor), t.UTC().Format(time.RFC3339), f.at.UTC().Format(time.RFC3339), m.opts.ValidatorReleaseTime))
